@@ -814,6 +814,67 @@ fn update_e2e(prop: &str, seed: u64, idx: u64, root: &Path, name: String, verbos
 }
 
 // ------------------------------------------------------------------------------------------------
+// 3. cli-update-languages-e2e: `--markdown-languages`
+// ------------------------------------------------------------------------------------------------
+
+/// `scrut update --markdown-languages …`: the languages that make a code block a test are a command-line choice; the
+/// document is parsed, executed AND rewritten with the same list. Blocks in `scrut`, `sh` and `python`; for each
+/// list, the blocks of the listed languages are tests (stale expectations get updated), all other blocks are kept byte
+/// for byte; the written document equals what the library writes for that list and passes `scrut test` with it.
+fn languages_e2e(prop: &str, idx: u64, root: &Path) -> CaseRec {
+    let lists: [&[&str]; 4] = [&["sh"], &["scrut", "sh"], &["sh", "scrut"], &["scrut"]];
+    let langs = lists[(idx % 4) as usize];
+    let order = (idx / 4) % 6; // order of the three blocks
+    let stale = (idx / 24) % 4; // which of scrut / sh blocks carry stale expectations (bit 0: scrut, bit 1: sh)
+    let dir = fresh_dir(root, format!("l{idx}"));
+    let blocks: [(&str, String); 3] = [
+        ("scrut", format!("```scrut\n$ echo from-scrut\n{}\n```\n", if stale & 1 == 1 { "stale-scrut" } else { "from-scrut" })),
+        ("sh", format!("```sh\n$ echo from-sh\n{}\n```\n", if stale & 2 == 2 { "stale-sh" } else { "from-sh" })),
+        ("python", "```python\n$ echo not-a-test\nnever-updated\n```\n".to_string()),
+    ];
+    let perm: [[usize; 3]; 6] = [[0, 1, 2], [0, 2, 1], [1, 0, 2], [1, 2, 0], [2, 0, 1], [2, 1, 0]];
+    let mut doc = String::from("# Languages\n\n");
+    for k in perm[order as usize] {
+        doc.push_str(&format!("## block {}\n\n{}\n", blocks[k].0, blocks[k].1));
+    }
+    let doc_path = dir.join("doc.md");
+    std::fs::write(&doc_path, &doc).unwrap();
+    let mut largs: Vec<String> = vec![];
+    for l in langs {
+        largs.push(format!("--markdown-languages={l}"));
+    }
+    let mut args = sv(&["update", "--replace", "--assume-yes"]);
+    args.extend(largs.clone());
+    args.push(doc_path.display().to_string());
+    let ran = scrut(&dir, &dir, &args, None);
+    let after = std::fs::read_to_string(&doc_path).unwrap_or_default();
+    let mut fails = vec![];
+    let describe = |what: &str| format!("{what}; `scrut {}` on {:?} -> {:?}", args.join(" "), doc, short(&after, 600));
+    // what must be written: the listed languages' blocks with the real output, everything else as it was
+    let mut want = String::from("# Languages\n\n");
+    for k in perm[order as usize] {
+        let (lang, text) = &blocks[k];
+        let text = if langs.contains(lang) { format!("```{lang}\n$ echo from-{lang}\nfrom-{lang}\n```\n") } else { text.clone() };
+        want.push_str(&format!("## block {lang}\n\n{text}\n"));
+    }
+    if ran.code != Some(0) {
+        fails.push(("C10:cli-update-languages".to_string(), describe(&format!("update failed: {}", ran.show()))));
+    } else if after != want {
+        fails.push(("C10:cli-update-languages".to_string(), describe(&format!("expected {:?}", want))));
+    } else {
+        let mut targs = sv(&["test"]);
+        targs.extend(largs.clone());
+        targs.push(doc_path.display().to_string());
+        let t = scrut(&dir, &dir, &targs, None);
+        if t.code != Some(0) {
+            fails.push(("C10:cli-update-languages".to_string(), describe(&format!("`scrut {}` on the updated document: {}", targs.join(" "), t.show()))));
+        }
+    }
+    let _ = std::fs::remove_dir_all(&dir);
+    CaseRec { op: "noop".into(), impl_out: "ok".into(), oracle_fail: keep(prop, fails), nontrivial: true, tags: vec![format!("cli-update-languages:list={}", langs.join("+")), format!("cli-update-languages:stale={stale}")] }
+}
+
+// ------------------------------------------------------------------------------------------------
 
 pub fn run(ctx: &Ctx, prop: &str) {
     let seed = ctx.seed;
@@ -824,6 +885,12 @@ pub fn run(ctx: &Ctx, prop: &str) {
         ctx.run_stream("cli-create-e2e", n, false, |idx| Some(create_e2e(prop, &create_params(seed, idx), &root, format!("c{idx}"))));
         let _ = std::fs::remove_dir_all(&root);
         ctx.note("cli-create-e2e: `scrut create --format F -e E --output <file|-> [--title T] -- 'cat <payload>; (exit N)'` (also the expression as two arguments and on STDIN) with the real binary; the written document minus the title is compared with the Lean model (`gen`) and with the library generator, and `scrut test` has to pass on it".into());
+    }
+    if prop == "C10" {
+        let root = tmproot("languages");
+        std::fs::create_dir_all(&root).unwrap();
+        ctx.run_stream("cli-update-languages-e2e-exhaustive", 4 * 6 * 4, true, |idx| Some(languages_e2e(prop, idx, &root)));
+        let _ = std::fs::remove_dir_all(&root);
     }
     let root = tmproot("update");
     std::fs::create_dir_all(&root).unwrap();
